@@ -10,7 +10,7 @@ import UF.Model.Match
   `$dnsrewrite` value parser (`loadDNSRewrite`, modelled by group H) and `findRegexpShortcut`
   (group A).
 -/
-namespace UF
+namespace UF.E
 open Bytes
 
 /-! ### loadDomains -/
@@ -308,4 +308,4 @@ def parseNetRule (px : ParseExt) (ruleText : Bytes) (listID : Int) : PE NetRule 
     let sc ← shortcutCandidate px r.pattern
     if sc.length > 1 then pure { r with shortcut := toLower sc } else pure r
 
-end UF
+end UF.E
